@@ -703,16 +703,23 @@ impl MqttClientImpl {
                 self.desired_stop_options = None;
                 self.desired_state = ClientImplState::Connected;
             }
-            OperationOptions::Stop(options) => {
+            OperationOptions::Stop(mut options) => {
 
                 if let Some(disconnect) = &options.disconnect {
-                    debug!("Submitting disconnect operation to protocol state");
-                    let disconnect_context = UserEventContext {
-                        event: UserEvent::Disconnect(disconnect.clone()),
-                        current_time
-                    };
+                    if is_connection_established(self.protocol_state.state()) {
+                        debug!("Submitting disconnect operation to protocol state");
+                        let disconnect_context = UserEventContext {
+                            event: UserEvent::Disconnect(disconnect.clone()),
+                            current_time
+                        };
 
-                    self.protocol_state.handle_user_event(disconnect_context);
+                        self.protocol_state.handle_user_event(disconnect_context);
+                    } else {
+                        // No MQTT connection exists, so there is nothing to send a DISCONNECT on.
+                        // Waiting for it to be flushed would keep the client from ever stopping.
+                        debug!("No established connection; stop will not wait on a disconnect packet");
+                        options.disconnect = None;
+                    }
                 }
 
                 debug!("Updating desired state to Stopped");
@@ -723,6 +730,8 @@ impl MqttClientImpl {
             OperationOptions::Shutdown() => {
                 debug!("Updating desired state to Shutdown");
                 self.protocol_state.reset(&current_time);
+                // the reset discarded any disconnect a previous stop request was waiting on
+                self.desired_stop_options = None;
                 self.desired_state = ClientImplState::Shutdown;
             }
             OperationOptions::AddListener(id, listener) => {
